@@ -29,7 +29,7 @@ M("sf_nfev_in_fun", "nfev counted in fun() instead of in the wrapper", ["C15", "
    "            self.update_x(x)\n        self.nfev += 1\n        self._update_fun()\n        return self.f * self.scaling_factor"))
 M("sf_bounds_dropped", "bounds not handed to the differencing routine", ["C15", "C16", "C02"],
   ("lbfgsb/scalar_function.py", "            finite_diff_options[\"bounds\"] = finite_diff_bounds\n", "            finite_diff_options[\"bounds\"] = (-np.inf, np.inf)\n"))
-M("sf_eps_none", "epsilon forced to None for jac=None", ["C15", "C16"],
+M("sf_eps_none", "epsilon forced to None for jac=None", ["C15"],
   ("lbfgsb/scalar_function.py", "        grad = \"2-point\"\n        epsilon = epsilon\n", "        grad = \"2-point\"\n        epsilon = None\n"))
 
 # --- benchmarks.py ------------------------------------------------------------
